@@ -276,9 +276,6 @@ theorem mem_surv {ops : Ops K} {F : Filters K} {T : List (Cand K)} {Ts : List (L
   · rintro ⟨p, ⟨hp, hk⟩, cs, h⟩; exact ⟨p, hp, hk, cs, h⟩
   · rintro ⟨p, hp, hk, cs, h⟩; exact ⟨p, ⟨hp, hk⟩, cs, h⟩
 
-/-- No filter at all. -/
-def noFilter : Filters K := ⟨fun _ => true, fun _ _ => true⟩
-
 /-- Capacity filter after every join, nothing else: the filters of the plain `join_pmappings` loop. -/
 def capFilter (cap : Int) : Filters K := ⟨fun _ => true, fun _ c => fitsC cap c⟩
 
